@@ -246,6 +246,15 @@ theorem C01_real_machine_is_specification (items : LexerDef) (c : Compiled) (h :
       specRunN items { dfa := dfa, ctxs := ctxs, entries := entries, inl := inl, actions := actions, width := width, input := input } n (initState user chars) :=
   dumped_machine_runs_are_specification items c h hok hne dfa entries ctxs inl hs actions width input user chars hch n
 
+/-- …and the stage check contains the well-formedness checker: every theorem of these files that assumes `MachineOK cfg` (dispatch C03, context
+gating C04, end of input C05, locations C06, errors C07, recovery C08, termination C09, action protocol C10) applies to the machine the real
+macro dumped. -/
+theorem C01_stage_check_establishes_hypotheses (c : Compiled) (dfa : DFA Trans) (entries : List (String × Nat)) (ctxs : List (DFA Nat)) (inl : List Nat)
+    (hs : stageOK c dfa entries ctxs inl = true) (actions : Nat → Action σ τ ε) (width : Nat → Nat) (input : Option (List Nat)) :
+    MachineOK ({ dfa := dfa, ctxs := ctxs, entries := entries, inl := inl, actions := actions, width := width, input := input } : Config σ τ ε) := by
+  obtain ⟨_, _, _, _, _, hwf, _, _⟩ := Dumped.stageOK_unpack c dfa entries ctxs inl hs
+  exact machineOK_of_checker _ ctxs.length hwf
+
 /-- non-vacuity of `stageOK`: the machine the model compiles for `exDef` (`'a' 'b'+ = 0`, `'a' > 'c' = 1`) passes the stage check against itself —
 evaluated by the kernel (product exploration, checker and all) -/
 example : ∃ c, compileLexer exDef = .ok c ∧ stageOK c c.dfa c.entries c.ctxs (inlinedStates c.dfa) = true := by
